@@ -241,7 +241,9 @@ def tla_expr(v):
     if isinstance(v, dict):
         if not v:
             return "<<>>"
-        return "[" + ", ".join("%s |-> %s" % (k, tla_expr(x)) for k, x in v.items()) + "]"
+        if all(re.fullmatch(r"[A-Za-z][A-Za-z0-9_]*", k) for k in v):
+            return "[" + ", ".join("%s |-> %s" % (k, tla_expr(x)) for k, x in v.items()) + "]"
+        return "(" + " @@ ".join('("%s" :> %s)' % (k, tla_expr(x)) for k, x in v.items()) + ")"
     if isinstance(v, (list, tuple)):
         return "<<" + ", ".join(tla_expr(x) for x in v) + ">>"
     if isinstance(v, (set, frozenset)):
@@ -284,6 +286,7 @@ class Report:
         self.tlc_runs = []
         self.rule = ""
         self.exhaustive = None
+        shutil.rmtree(os.path.join(VERIF, "replays", prop), ignore_errors=True)
         self.known = [k for k in load_known() if k.get("property") == prop and k.get("status") == "known"]
 
     # -- TLC bookkeeping
